@@ -32,6 +32,7 @@ func transactSafely(db *kit.DB, ops []ovsdb.Operation) (out kit.TxnOutcome, pval
 		stack string
 	}
 	done := make(chan answer, 1)
+	kit.StartMemGuard(c19MemoryGuard)
 	go func() {
 		var a answer
 		defer func() {
@@ -56,6 +57,10 @@ func transactSafely(db *kit.DB, ops []ovsdb.Operation) (out kit.TxnOutcome, pval
 
 // c19AnswerBound: no operation of the harness waits (waits with a timeout are not sent).
 const c19AnswerBound = 20 * time.Second
+
+// c19MemoryGuard: resident set beyond which a test process handling hostile requests gives
+// up (the generated databases hold a handful of rows; the binaries normally stay below 1 GB).
+const c19MemoryGuard = 5 << 30
 
 // TestC19Txn: structurally corrupted transactions (dropped members, swapped value
 // types, out-of-domain numbers, zero divisors, nulls, empty arrays where pairs are
@@ -142,7 +147,11 @@ func TestC19Txn(t *testing.T) {
 				kit.Record("C19", "txn:unboundedwait", false, nil, "txn:skipped-unbounded-wait")
 				continue
 			}
+			// a request that makes the library allocate without bound ends the process (memory
+			// guard): the case is written down beforehand
+			inflight := kit.InFlight("C19", "resource.memory-or-crash", kase)
 			out, pval, stack := transactSafely(l.DB, ops)
+			inflight()
 			if pval != nil {
 				kit.Fail(t, "C19", "panic."+panicSite(stack), kase, "transact panicked: %v\nrequest: %s\n%s", pval, text, stack)
 			}
